@@ -181,7 +181,7 @@ class IDF(BaseMDOFormulation):
                 if discipline_adapter.is_linear:
                     constraint = compute_linear_approximation(
                         constraint,
-                        zeros(discipline_adapter.input_dimension),
+                        zeros(self.optimization_problem.design_space.dimension),
                         f_type=constraint.ConstraintType.EQ,
                     )
                 self.optimization_problem.add_constraint(constraint)
